@@ -137,7 +137,8 @@ func instantiateHyp(h *Term, cands map[*Sort][]*Term, out *[]*Term, budget *int)
 
 // Instantiated returns (qfQuery, fullQuery): the first has no quantified hypotheses (only their instances),
 // the second keeps them and adds the instances.
-func (q *Query) Instantiated(withSub bool) (*Query, *Query) {
+func (q *Query) Instantiated(level int) (*Query, *Query) {
+	withSub := level >= 1
 	if q.Goal == nil {
 		return nil, q
 	}
@@ -161,6 +162,32 @@ func (q *Query) Instantiated(withSub bool) (*Query, *Query) {
 	}
 	groundIndexTerms([]*Term{goal}, cands, seen, 10, withSub)
 	groundIndexTerms(q.Hyps, cands, seen, 14, withSub)
+	if level >= 2 {
+		// width casts of index-like candidates: a uint16 slot number used as an int index and vice versa
+		add := func(t *Term) {
+			if !seen[t] && len(cands[t.S]) < 24 {
+				seen[t] = true
+				cands[t.S] = append(cands[t.S], t)
+			}
+		}
+		for _, u := range append([]*Term{}, cands[BVS(64)]...) {
+			if !u.IsConst() {
+				add(Extract(u, 15, 0))
+			}
+			if u.Op == "bvadd" && len(u.Args) == 2 {
+				for _, a := range u.Args {
+					if !a.IsConst() {
+						add(Extract(a, 15, 0))
+					}
+				}
+			}
+		}
+		for _, u := range append([]*Term{}, cands[BVS(16)]...) {
+			if !u.IsConst() {
+				add(ZeroExt(u, 64))
+			}
+		}
+	}
 	var inst []*Term
 	budget := 3000
 	for round := 0; round < 2; round++ {
